@@ -52,6 +52,13 @@ pub enum Op {
     /// around the ring size relative to max: max - 8192 + off - 1 etc.
     Ring(u8, u8),
     Abs(u64),
+    /// the next id in order: current max + 1 (what ordinary traffic looks like)
+    #[serde(alias = "Next")]
+    Next,
+    /// a run of n ids in order (long enough to cross block boundaries)
+    Run(u8),
+    /// an earlier id of this history plus k laps of the ring (same slot and bit, 8192*k later)
+    Alias(u16, u8),
 }
 
 #[derive(Clone, Debug, Serialize, Deserialize)]
@@ -106,6 +113,23 @@ pub fn concretize(h: &History) -> (u64, Vec<u64>) {
                     *v % 100_000
                 }
             }
+            Op::Next => max.saturating_add(1),
+            Op::Run(n) => {
+                // all but the last id of the run are pushed here, the last one below
+                for _ in 1..(*n).max(1) {
+                    let id = max.saturating_add(1);
+                    ids.push(id);
+                    max = max.max(id);
+                }
+                max.saturating_add(1)
+            }
+            Op::Alias(i, k) => {
+                if ids.is_empty() {
+                    8192
+                } else {
+                    ids[rt::idx(*i, ids.len())].saturating_add(8192 * (1 + (*k % 2) as u64))
+                }
+            }
         };
         ids.push(id);
         max = max.max(id);
@@ -127,6 +151,9 @@ fn op_strategy() -> BoxedStrategy<Op> {
         1 => (0u32..100_000).prop_map(Op::Jump),
         3 => (0u8..10, 0u8..3).prop_map(|(w, o)| Op::Ring(w, o)),
         1 => any::<u64>().prop_map(Op::Abs),
+        3 => Just(Op::Next),
+        2 => (1u8..140).prop_map(Op::Run),
+        3 => (any::<u16>(), 0u8..2).prop_map(|(i, k)| Op::Alias(i, k)),
     ]
     .boxed()
 }
